@@ -5,9 +5,13 @@ cd "$(dirname "$0")"
 export GOFLAGS=-mod=mod GOPROXY=off
 unset GOTOOLCHAIN GOSUMDB || true
 mkdir -p build evidence replays
-( cd coq && coq_makefile -f _CoqProject -o Makefile >/dev/null && timeout 3000 make -k -j"$(nproc)" >/dev/null 2>build.log || { tail -30 build.log; echo "coq build had failures (checks report them per property)"; } ; rm -f build.log )
+python3 -c "import sys; sys.path.insert(0,'lib'); import runner; runner.ensure_makefile()"
+( cd coq && timeout 3000 make -k -j"$(nproc)" >/dev/null 2>build.log || { tail -30 build.log; echo "coq build had failures (checks report them per property)"; } ; rm -f build.log )
 cp /repo/go.sum harness/go.sum 2>/dev/null || true
-( cd harness && timeout 1800 go build -tags verif -o ../build/harness . ) || echo "harness build failed (checks report it)"
+for d in harness/c[0-9][0-9]; do
+  id=$(basename "$d" | tr c C)
+  ( cd harness && timeout 1800 go build -tags verif -o ../build/harness-$id ./$(basename "$d") ) || echo "harness $id build failed (its check reports it)"
+done
 python3 - <<'PY'
 import sys, os, glob, json
 sys.path.insert(0, os.path.join(os.getcwd(), "lib"))
